@@ -85,6 +85,8 @@ pub enum Op {
     Tick,
     Reset,
     ResetEta,
+    /// reset_elapsed(): only elapsed() starts again - the bar is not reset, and neither are its custom keys
+    ResetElapsed,
     Finish,
     FinishWithMessage(String),
     Abandon,
@@ -150,6 +152,7 @@ fn op_strategy() -> BoxedStrategy<Op> {
         3 => Just(Op::Tick),
         1 => Just(Op::Reset),
         1 => Just(Op::ResetEta),
+        1 => Just(Op::ResetElapsed),
         1 => Just(Op::Finish),
         1 => "[a-z\t]{0,6}".prop_map(Op::FinishWithMessage),
         1 => Just(Op::Abandon),
@@ -216,6 +219,7 @@ fn run_keys(c: &KeyCase) -> CaseResult {
             Op::Tick => pb.tick(),
             Op::Reset => pb.reset(),
             Op::ResetEta => pb.reset_eta(),
+            Op::ResetElapsed => pb.reset_elapsed(),
             Op::Finish => pb.finish(),
             Op::FinishWithMessage(m) => pb.finish_with_message(m.clone()),
             Op::Abandon => pb.abandon(),
@@ -242,7 +246,7 @@ fn run_keys(c: &KeyCase) -> CaseResult {
                 resets += 1;
                 finished = false;
             }
-            Op::ResetEta => {}
+            Op::ResetEta | Op::ResetElapsed => {}
             Op::OtherTicks => alt_ticks = !alt_ticks,
             Op::StyleViaOtherBar(w) => v.label_if(*w as usize != tab_width, "style_taken_from_a_bar_with_another_tab_width"),
             Op::Finish | Op::FinishWithMessage(_) | Op::Abandon | Op::AbandonWithMessage(_) => finished = true,
@@ -346,7 +350,7 @@ fn run_keys(c: &KeyCase) -> CaseResult {
             s.finished
         );
         ensure!(s.ticks >= trk_ticks, "tracker", "{ctx}: custom key received {} tick notifications, the bar was ticked/updated {trk_ticks} times", s.ticks);
-        ensure!(s.resets >= resets, "tracker", "{ctx}: custom key received {} reset notifications for {resets} reset() calls", s.resets);
+        ensure!(s.resets == resets, "tracker", "{ctx}: custom key received {} reset notifications for {resets} reset() calls (custom keys are reset together with the bar, and only then)", s.resets);
         if matches!(op, Op::Reset) {
             // reset together with the bar: the notification carries the state of the bar after the reset
             ensure!(s.reset_saw == Some((0, false)), "tracker", "{ctx}: the reset notification saw (position, finished) = {:?} instead of the reset bar (0, false)", s.reset_saw);
